@@ -37,6 +37,7 @@ from happysimulator.components.sync.mutex import Mutex
 from happysimulator.core.clock import Clock
 from happysimulator.core.entity import Entity
 from happysimulator.core.event import Event
+from happysimulator.core.sim_future import SimFuture
 
 logger = logging.getLogger(__name__)
 
@@ -123,7 +124,7 @@ class Condition(Entity):
         """Number of threads waiting on this condition."""
         return len(self._waiters)
 
-    def wait(self) -> Generator[float]:
+    def wait(self) -> Generator[float | SimFuture]:
         """Wait for the condition to be signaled.
 
         Atomically releases the associated mutex, waits for a signal,
@@ -133,7 +134,8 @@ class Condition(Entity):
         check the actual condition in a loop (spurious wakeups are possible).
 
         Yields:
-            0.0 while waiting and during mutex reacquisition.
+            A SimFuture resolved by notify()/notify_all(), then whatever the
+            mutex reacquisition yields.
 
         Raises:
             RuntimeError: If the mutex is not held.
@@ -151,20 +153,17 @@ class Condition(Entity):
         enqueue_time = self._clock.now.nanoseconds if self._clock else 0
 
         # Set up wakeup callback
-        woken = [False]
+        woken = SimFuture()
 
-        def on_wake():
-            woken[0] = True
-
-        waiter = _Waiter(callback=on_wake, enqueue_time_ns=enqueue_time)
+        waiter = _Waiter(callback=woken.resolve, enqueue_time_ns=enqueue_time)
         self._waiters.append(waiter)
 
         # Release the mutex (this may wake other waiters on the mutex)
         self._lock.release()
 
-        # Wait for signal
-        while not woken[0]:
-            yield 0.0
+        # Park until signalled (waiting consumes no simulated activity)
+        while not woken.is_resolved:
+            yield woken
 
         # Reacquire the mutex
         yield from self._lock.acquire()
@@ -177,7 +176,7 @@ class Condition(Entity):
         self,
         predicate: Callable[[], bool],
         timeout: float | None = None,
-    ) -> Generator[float, None, bool]:
+    ) -> Generator[float | SimFuture, None, bool]:
         """Wait for a predicate to become true.
 
         A convenience method that handles the wait loop automatically.
